@@ -384,8 +384,8 @@ pub fn run(ctx: &mut Ctx) {
         o.nstreams = 2 + idx % 2;
         o.stage = (idx / 2) % 4;
         o.nstate = 1 + (idx / 8) % 7;
-        o.win_mcp = (idx / 56) % 4;
-        o.win_lf0 = (idx / 56 + 1) % 4;
+        o.win_mcp = [0usize, 1, 2, 3, 5, 4][(idx / 56 + idx % 2) % 6];
+        o.win_lf0 = [1usize, 2, 5, 3, 0, 4][(idx / 56 + idx / 8) % 6];
         match load_synthetic(&env, &o, rng) {
             Ok((e, refv)) => {
                 for _ in 0..2 {
